@@ -10,6 +10,7 @@ SPEC = {
     "pid": "C20",
     "target": "fz_loads",
     "corpus": "corpus/C20",
+    "raw_dump_env": "VERIF_FZ_DUMP",
     "rule": ("coverage-guided byte strings given to Basic::loads: mode A raw bytes (libFuzzer mutations of the committed corpus = "
              "dumps of 320 generated expressions covering all 88 serialisable classes, plus workers starting from an empty corpus); "
              "mode B structure-aware: bytes -> op-program building an object with shared nodes from a table of constructors of every "
